@@ -1,6 +1,10 @@
 package s2
 
-import "github.com/golang/geo/r3"
+import (
+	"math"
+
+	"github.com/golang/geo/r3"
+)
 
 // C16 — the intersection point is independent of argument order.
 // Exactly collinear edges (the collinear fallback of intersectionExact): all four
@@ -52,5 +56,25 @@ func Harness_C16_compare_edges_consistent() {
 	vr.Assert("reversing the second edge does not change the order", compareEdges(a0, a1, b1, b0) == c)
 	same := vr.Or(vr.And(a0 == b0, a1 == b1), vr.And(a0 == b1, a1 == b0))
 	vr.Assert("antisymmetric on distinct undirected edges", vr.Implies(!same, compareEdges(b0, b1, a0, a1) == !c))
+	vr.Reach("end")
+}
+
+// The stable (float) path: projection(x, aNorm, aNormLen, a0, a1) picks the endpoint of the
+// edge that is closer to x, with a deterministic tie-break, so that reversing the edge
+// (which negates the edge normal exactly) negates the projection exactly and leaves the
+// error bound unchanged. That is the step on which the bit-identity of the stable path
+// under reversal rests (everything else in getIntersectionStableSorted is symmetric
+// arithmetic on the two projections).
+func Harness_C16_projection_reversal() {
+	vr.Domain("RUF")
+	x, a0, a1 := vrBoundedPoint("x"), vrBoundedPoint("a0"), vrBoundedPoint("a1")
+	n := vrVec("n")
+	vr.Assume(vr.And(vr.And(math.Abs(n.X) <= 4, math.Abs(n.Y) <= 4), math.Abs(n.Z) <= 4))
+	nl := vr.Float64("nlen")
+	vr.Assume(vr.And(nl >= 0, nl <= 4))
+	p, e := projection(x.Vector, n, nl, a0, a1)
+	q, f := projection(x.Vector, r3.Vector{X: -n.X, Y: -n.Y, Z: -n.Z}, nl, a1, a0)
+	vr.Assert("reversing the edge negates the projection exactly", q == -p)
+	vr.Assert("reversing the edge leaves the error bound unchanged", f == e)
 	vr.Reach("end")
 }
